@@ -292,8 +292,22 @@ func (x *Exec) loopHead(fr *frame, li *loopInfo, st *State) {
 		x.havocAll(st, fmt.Sprintf("loop %d of %s calls code without contract", li.ord, shortName(fr.fn)))
 	} else {
 		keys := sortedKeys(m.keys)
+		li.prefixGuards = map[string]Term{}
+		li.headKeys = map[string]bool{}
+		for k := range c.heapKeys {
+			li.headKeys[k] = true
+		}
 		for _, k := range keys {
-			x.havocKey(st, k)
+			// arrays already known: fresh unknowns (their frames are per-key candidates);
+			// arrays first touched later: a guarded frame relative to the pre-loop default
+			for _, hk := range sortedKeys(c.heapKeys) {
+				if strings.HasPrefix(hk, k) {
+					st.heap[hk] = c.Fresh("Hh", c.heapKeys[hk])
+				}
+			}
+			g := c.Fresh("houdini", SBool)
+			li.prefixGuards[k] = g
+			x.bumpPrefixGuarded(st, k, entryAlloc, g)
 		}
 		na := c.Fresh("alloc", SInt)
 		c.AddFact(st.pc, mk(SBool, ">=", na, st.alloc), "alloc monotone")
@@ -508,6 +522,31 @@ func (x *Exec) autoCandidates(fr *frame, li *loopInfo, pre, st *State, entryAllo
 				}
 			}
 		}
+	}
+	// arrays under a havocked prefix that are first accessed inside or after the loop
+	for _, p := range sortedKeys(li.prefixGuards) {
+		p := p
+		id := len(x.cands)
+		x.cands = append(x.cands, &candidate{id: id, guard: li.prefixGuards[p], text: "late-frame " + p, active: true, declAt: len(c.decls)})
+		li.candIDs = append(li.candIDs, id)
+		li.candEval = append(li.candEval, func(s *State) Term {
+			var parts []Term
+			for _, k := range sortedKeys(c.heapKeys) {
+				if !strings.HasPrefix(k, p) || li.headKeys[k] {
+					continue
+				}
+				srt := c.heapKeys[k]
+				cur := x.heapGet(s, k, srt)
+				preArr := x.heapGet(pre, k, srt)
+				if cur.S == preArr.S {
+					continue
+				}
+				f := fmt.Sprintf("(forall ((r Int)) (! (=> (<= r %s) (= (select %s r) (select %s r))) :pattern ((select %s r))))",
+					entryAlloc.S, cur.S, preArr.S, cur.S)
+				parts = append(parts, Term{S: f, Sort: SBool, N: 12, UB: -1})
+			}
+			return and(parts...)
+		})
 	}
 	if li.lc != nil && len(li.lc.Invariants) > 0 {
 		return
